@@ -132,6 +132,14 @@ def replay_history(df, init, state, emb, part, check_final=True):
         else:
             if ret is obj:
                 part.violation(_key("C13_CopyReturnsNew", st, okind), "the copying form returned the object itself", wit())
+            else:
+                shared = [o for o in gh.reachable(df, [ret]) if any(o is q for q in live)]
+                if shared:
+                    # with the in-place steps of the API a shared region / mesh is a modification of the original waiting to
+                    # happen (seeded change C14-12: translate by the zero vector returned the region itself)
+                    part.violation(_key("C13_CopyLeavesOriginal", st, okind, "result-shares-objects-with-the-original"),
+                                   "the result of the copying form refers to objects of the original (its region, subregions or mesh)",
+                                   wit(shared=[_kind_of(df, o) for o in shared]))
             changed = [o for o in live if not gh.same_obs(before[id(o)], gh.observe(df, o))]
             if changed:
                 part.violation(_key("C13_CopyLeavesOriginal", st, okind, cls), "the copying form modified an existing object",
